@@ -110,6 +110,11 @@ func canonical(budget int) []caseSpec {
 		mk(nil, "start1", "interim1", "stop2", "interim1", "stop1"),
 		mk(map[string]int{"stop:1": 1}, "start1", "start2", "stop1", "stop1", "pump", "stop2"),
 		nodrain(mk(nil, "start1", "stop2", "graceful")),
+		// without drain AND with Stops queued during an outage: the graceful Stop() must still leave the queue on disk
+		nodrain(mk(map[string]int{"stop:1": 1}, "start1", "stop1", "graceful")),
+		nodrain(mk(map[string]int{"stop:1": B}, "start1", "stop1", "pump", "graceful")),
+		nodrain(mk(map[string]int{"stop:1": B, "stop:2": B}, "start1", "start2", "stop1", "stop2", "pump", "pump", "graceful")),
+		nodrain(mk(map[string]int{"stop:2": B}, "start1", "start2", "stop2", "graceful", "stop1")),
 	}
 }
 
